@@ -1,0 +1,15 @@
+//go:build verif
+
+package frame
+
+// VerifGate, when set, is called at the linearization points of Client.Send
+// ("send:locked", "send:written", "send:read"). A blocking gate lets the
+// verification harness hold a goroutine at such a point and thereby replay a
+// chosen interleaving of concurrent Sends.
+var VerifGate func(point string)
+
+func verifGate(point string) {
+	if g := VerifGate; g != nil {
+		g(point)
+	}
+}
